@@ -171,7 +171,9 @@ theorem scanNone_cfg_mem : ∀ (rem pre : Line) (r : Line × Line × Line),
     split at h
     · split at h
       · cases h
-      · exact List.mem_cons_of_mem _ (scanSome_cfg_mem pre rest [ch] r h c hc)
+      · split at h
+        · cases h
+        · exact List.mem_cons_of_mem _ (scanSome_cfg_mem pre rest [ch] r h c hc)
     · exact List.mem_cons_of_mem _ (ih _ r h c hc)
 
 theorem fencePure_cfg_mem {l bt lang config : Line} (h : fencePure l = some (bt, lang, config)) :
